@@ -166,6 +166,14 @@ class Schema:
                         self.problems.append((f"{owner.fq}: ** spread in metadata map", mod, call))
                         continue
                     mi.map.append((self.parse_key(k, mod), self.parse_type(v, mod)))
+        if "tag" in kw and isinstance(kw["tag"], ast.Name):
+            # tag=ENVELOPE_TAG: a module-level name bound once to Tag(...)
+            r_ = self.repo.resolve_name(mod, kw["tag"].id)
+            if r_ is not None and r_[0] == "const" and isinstance(r_[1], ast.Call):
+                kw["tag"] = r_[1]
+                mod = r_[2]
+            else:
+                raise AnalysisError(f"{owner.fq}: tag of the metadata is written in a form the schema reader does not understand: {kw['tag'].id}")
         if "tag" in kw and isinstance(kw["tag"], ast.Call):
             try:
                 targs = [self.ev.const(a, mod) for a in kw["tag"].args]
